@@ -83,6 +83,7 @@ type Runner struct {
 	mu        sync.Mutex
 	dumpDir   string
 	deadline  time.Time
+	jobBudget int // default wall-clock budget per job in seconds (0 = none): on a broken tree a few exploding jobs must not starve the rest
 }
 
 func (r *Runner) RunJobs(jobs []Job) []JobResult {
@@ -181,8 +182,12 @@ func (r *Runner) runJob(job Job, st *Store, sol *Solver) (jr JobResult) {
 		globalW: map[string]bool{}, globalInit: map[string]bool{}, globalAtomW: map[string]bool{}, globalAtomR: map[string]bool{}, globalR: map[string]bool{}, loopFuncs: map[string]bool{}}
 	e.aliasResolve = job.Alias
 	e.deadline = r.deadline
-	if job.BudgetS > 0 {
-		if d := time.Now().Add(time.Duration(job.BudgetS) * time.Second); e.deadline.IsZero() || d.Before(e.deadline) {
+	bs := job.BudgetS
+	if bs == 0 {
+		bs = r.jobBudget
+	}
+	if bs > 0 {
+		if d := time.Now().Add(time.Duration(bs) * time.Second); e.deadline.IsZero() || d.Before(e.deadline) {
 			e.deadline = d
 		}
 	}
